@@ -301,3 +301,94 @@ def galerkin_radial(breaks, p, nquad, A, Bf, Cf, Df, Ef, m2, l_neumann, u_neuman
     Mass = np.einsum("q,qj,qi->ij", w * e * x, V, V)
     keep = np.arange(0 if l_neumann else 1, n - (0 if u_neumann else 1))
     return K[np.ix_(keep, keep)], Mass[keep, :], keep, T
+
+
+# ---------------------------------------------------------------------------------------------
+# vectorised basis matrices (used where many scattered points must be evaluated: C12)
+
+
+def basis_matrix(T, p, xs, der=0):
+    """(len(xs), n) matrix of B_{j,p}^{(der)}(x_k), der in {0,1}; closed domain; vectorised Cox-de Boor"""
+    T = np.asarray(T, dtype=float)
+    xs = np.asarray(xs, dtype=float).ravel()
+    m = len(T)
+    n = m - p - 1
+    a, b = T[p], T[m - p - 1]
+    slack = 1e-14 * max(1.0, abs(a), abs(b))
+    x = np.where((xs < a) & (xs >= a - slack), a, xs)
+    x = np.where((x > b) & (x <= b + slack), b, x)
+
+    def deg0():
+        B = np.zeros((len(x), m - 1))
+        for j in range(m - 1):
+            if T[j] < T[j + 1]:
+                B[:, j] = (x >= T[j]) & (x < T[j + 1])
+        # right end point belongs to the last non-empty interval
+        k = m - p - 2
+        while k > 0 and T[k] == T[k + 1]:
+            k -= 1
+        B[x == b, :] = 0.0
+        B[x == b, k] = 1.0
+        return B
+
+    def raise_deg(B, q):
+        Bn = np.zeros((len(x), m - 1 - q))
+        for j in range(m - 1 - q):
+            d1 = T[j + q] - T[j]
+            if d1 > 0:
+                Bn[:, j] += (x - T[j]) / d1 * B[:, j]
+            d2 = T[j + q + 1] - T[j + 1]
+            if d2 > 0:
+                Bn[:, j] += (T[j + q + 1] - x) / d2 * B[:, j + 1]
+        return Bn
+    B = deg0()
+    top = p if der == 0 else p - 1
+    for q in range(1, top + 1):
+        B = raise_deg(B, q)
+    if der == 0:
+        return B[:, :n]
+    if der == 1:
+        if p == 0:
+            return np.zeros((len(x), n))
+        D = np.zeros((len(x), n))
+        for j in range(n):
+            d1 = T[j + p] - T[j]
+            if d1 > 0:
+                D[:, j] += p * B[:, j] / d1
+            d2 = T[j + p + 1] - T[j + 1]
+            if d2 > 0:
+                D[:, j] -= p * B[:, j + 1] / d2
+        return D
+    raise ValueError(der)
+
+
+class Tensor2D:
+    """reference 2-D tensor spline (theta periodic x r clamped, or any): built from nodal values by
+    dense collocation solves in both directions; evaluated at scattered points."""
+
+    def __init__(self, basis1, pts1, basis2, pts2):
+        self.T1, self.p1 = knots_of(basis1), basis1.degree
+        self.T2, self.p2 = knots_of(basis2), basis2.degree
+        self.n1 = len(self.T1) - self.p1 - 1
+        self.n2 = len(self.T2) - self.p2 - 1
+        self.nb1, self.nb2 = basis1.nbasis, basis2.nbasis
+        self.per1, self.per2 = basis1.periodic, basis2.periodic
+        M1 = collocation(self.T1, self.p1, pts1, periodic_nb=self.nb1 if self.per1 else None)
+        M2 = collocation(self.T2, self.p2, pts2, periodic_nb=self.nb2 if self.per2 else None)
+        self.kappa = float(np.linalg.cond(M1) * np.linalg.cond(M2))
+        self.M1inv, self.M2inv = np.linalg.inv(M1), np.linalg.inv(M2)
+
+    def coeffs(self, U):
+        Cc = self.M1inv @ np.asarray(U) @ self.M2inv.T
+        full = np.zeros((self.n1, self.n2), dtype=Cc.dtype)
+        full[:self.nb1, :self.nb2] = Cc
+        if self.per1:
+            full[self.nb1:, :self.nb2] = Cc[:self.n1 - self.nb1, :]
+        if self.per2:
+            full[:, self.nb2:] = full[:, :self.n2 - self.nb2]
+        return full
+
+    def eval(self, Cfull, x1, x2, d1=0, d2=0):
+        B1 = basis_matrix(self.T1, self.p1, x1, d1)
+        B2 = basis_matrix(self.T2, self.p2, x2, d2)
+        return np.einsum("ki,ij,kj->k", B1, Cfull, B2)
